@@ -73,7 +73,18 @@ func simGoid() uint64 { return getg().goid }
 	poolPath := filepath.Join(goroot, "src", "sync", "pool.go")
 	pb, err := os.ReadFile(poolPath)
 	must(err)
-	ps := replaceOnce(string(pb), "if runtime_randn(4) == 0 {", "if true || runtime_randn(4) == 0 {", "sync.Pool.Put")
+	ps := replaceOnce(string(pb), "if runtime_randn(4) == 0 {", "if simPoolDrop {", "sync.Pool.Put")
+	ps += `
+// ---- added by /verif/tools/cmd/mkoverlay (simulation binary only) ----
+
+// simPoolDrop: pools retain nothing (see mkoverlay).  The simulator switches it
+// off for some runs, so that misuse of a pool inside the code under test (an
+// item put back dirty, or twice) can still show.
+var simPoolDrop = true
+
+//go:linkname simSetPoolDrop ` + pkg + `.setPoolDrop
+func simSetPoolDrop(b bool) { simPoolDrop = b }
+`
 	po := filepath.Join(out, "pool.go")
 	must(os.WriteFile(po, []byte(ps), 0o644))
 
